@@ -55,7 +55,13 @@ DefaultSel(n) == PList([i \in 1..n |-> PInt(ToString((i * 2) % 3))])
 \* pending = <<kind index, shape, what, path, bad index>>
 Ops == {"rate", "win", "draw", "rank"}
 Variants == {"one_team", "no_team", "empty_last", "empty_first", "ranks_short", "ranks_long", "scores_short", "scores_long",
-             "both", "both_scores_bad", "ranks_bools", "scores_negs", "ranks_zeros", "ok_plain", "ok_ranks", "ok_scores"}
+             "both", "both_scores_bad", "ranks_bools", "scores_negs", "ranks_zeros", "ok_plain", "ok_ranks", "ok_scores",
+             \* an empty list is "not given": beside a given selector, beside another empty one, beside an explicit None
+             "ranks_empty_scores_ok", "scores_empty_ranks_ok", "both_empty", "ranks_empty_scores_bad", "scores_empty_ranks_bad"}
+\* every team replaced at once: a flat list of players (a "free for all" written without the inner lists), tuples, ...
+WholeVariants == {"flat", "flat_tuple", "all_tuples", "all_foreign", "all_none", "all_numbers", "deeper"}
+RECURSIVE FlatItems(_)
+FlatItems(ts) == IF ts = <<>> THEN <<>> ELSE Head(ts).items \o FlatItems(Tail(ts))
 Pending ==
   UNION {UNION {
      LET b == (ki - 1) * CastSize
@@ -64,7 +70,8 @@ Pending ==
      IN  {<<ki, sh, op, "teams", path, k>> : op \in Ops, path \in Paths(g), k \in 1..NBad}
          \cup {<<ki, sh, "rate", sel, path, k>> : sel \in {"ranks", "scores"}, path \in Paths(DefaultSel(n)), k \in 1..NBad}
          \cup {<<ki, sh, op, v, <<>>, 0>> : op \in Ops, v \in {"one_team", "no_team", "empty_last", "empty_first", "ok_plain",
-                                                                 "empty_then_tuple", "tuple_then_empty", "empty_then_foreign", "foreign_then_empty", "empty_then_none"}}
+                                                                 "empty_then_tuple", "tuple_then_empty", "empty_then_foreign", "foreign_then_empty", "empty_then_none"}
+                                                                 \cup WholeVariants}
          \cup {<<ki, sh, "rate", v, <<>>, 0>> : v \in Variants}
      : sh \in Shapes} : ki \in {k \in 1..5 : KindSeq[k] \in KindSet}}
 
@@ -86,11 +93,20 @@ CallOf(p) ==
                  [] what = "empty_then_foreign" -> [g EXCEPT !.items[1] = PList(<<>>), !.items[2] = PList(<<L(fb + 1)>>)]
                  [] what = "foreign_then_empty" -> [g EXCEPT !.items[1] = PList(<<L(fb + 1)>>), !.items[2] = PList(<<>>)]
                  [] what = "empty_then_none"    -> PList(<<g.items[1], PList(<<>>), PNone>> \o SubSeq(g.items, 2, n))
+                 [] what = "flat"        -> PList(FlatItems(g.items))
+                 [] what = "flat_tuple"  -> PTuple(FlatItems(g.items))
+                 [] what = "all_tuples"  -> PList([i \in 1..n |-> PTuple(g.items[i].items)])
+                 [] what = "all_foreign" -> PList([i \in 1..n |-> PList(<<L(fb + i)>>)])
+                 [] what = "all_none"    -> PList([i \in 1..n |-> PNone])
+                 [] what = "all_numbers" -> PList([i \in 1..n |-> PFloat(ToString(i) \o ".0")])
+                 [] what = "deeper"      -> PList([i \in 1..n |-> PList(<<g.items[i]>>)])
                  [] OTHER -> g
       ranks == CASE what = "ranks"        -> Subst(sel, path, Bad(b, fb)[k])
                  [] what = "ranks_short"  -> PList(SubSeq(sel.items, 1, n - 1))
                  [] what = "ranks_long"   -> PList(Append(sel.items, PInt("1")))
-                 [] what \in {"both", "both_scores_bad", "ok_ranks"} -> sel
+                 [] what \in {"both", "both_scores_bad", "ok_ranks", "scores_empty_ranks_ok"} -> sel
+                 [] what \in {"ranks_empty_scores_ok", "both_empty", "ranks_empty_scores_bad"} -> PList(<<>>)
+                 [] what = "scores_empty_ranks_bad" -> PList(SubSeq(sel.items, 1, n - 1))
                  [] what = "ranks_bools"  -> PList([i \in 1..n |-> PBool(i % 2 = 0)])
                  [] what = "ranks_zeros"  -> PList([i \in 1..n |-> IF i % 2 = 0 THEN PInt("0") ELSE PFloat("-0.0")])
                  [] what = "teams" /\ k % 2 = 0 -> sel
@@ -98,7 +114,9 @@ CallOf(p) ==
       scores == CASE what = "scores"       -> Subst(sel, path, Bad(b, fb)[k])
                   [] what = "scores_short" -> PList(SubSeq(sel.items, 1, n - 1))
                   [] what = "scores_long"  -> PList(Append(sel.items, PInt("1")))
-                  [] what \in {"both", "ok_scores"} -> sel
+                  [] what \in {"both", "ok_scores", "ranks_empty_scores_ok"} -> sel
+                  [] what \in {"scores_empty_ranks_ok", "both_empty", "scores_empty_ranks_bad"} -> PList(<<>>)
+                  [] what = "ranks_empty_scores_bad" -> PList(Append(sel.items, PStr("x")))
                   [] what = "both_scores_bad" -> PStr("abc")
                   [] what = "scores_negs"  -> PList([i \in 1..n |-> PInt(ToString(0 - i))])
                   [] OTHER -> PNone
